@@ -39,6 +39,10 @@ func runC01(c *Ctx, r *Report) {
 	importRules(c, r, "C02", []string{"R-C02.1", "R-C02.2", "R-C02.4", "R-C02.10"}, "R-C01.11")
 	r.Doc("R-C01.12", "the orderings the linearisation relies on are lawful orders (adopted from C19: replicas only expose the same sequence under a strict total order)")
 	importRules(c, r, "C19", []string{"R-C19.0", "R-C19.1", "R-C19.2", "R-C19.3", "R-C19.4", "R-C19.6"}, "R-C01.12")
+	r.Doc("R-C01.13", "distinct entries get distinct identifiers: the block keeps every field exactly as the entry holds it (adopted from C08: everything a replica holds is keyed by the identifier, so a lossy block makes two different entries one and replicas keep whichever they saw first)")
+	importRules(c, r, "C08", []string{"R-C08.2"}, "R-C01.13")
+	r.Doc("R-C01.14", "a refused append or merge leaves the entry index, the predecessor index and the heads untouched (adopted from C02: a phantom link makes the next merge drop the replica's own heads, and the replicas no longer hold the same entries)")
+	importRules(c, r, "C02", []string{"R-C02.7"}, "R-C01.14")
 	r.Doc("R-C01.10", "entries are filed in the entry index under their own hash and in the predecessor index under their own predecessor links (a link index fed from references, or from another list, makes head filtering depend on merge order)")
 	indexKeys(c, r, "R-C01.10")
 	join := p.FuncI("", "IPFSLog", "Join")
